@@ -74,6 +74,14 @@ def run_writer(directory: str, scn: dict, dest_name: str = 'dest.bin') -> str:
             # so the expected previous contents stay well defined wherever a fault lands)
             with writer as f0:
                 f0.write(OLD if scn['is_bytes'] else OLD.decode('latin1'))
+        if scn.get('restart'):
+            # an attempt that was started and never finished, then the same writer is started again: "starting the context
+            # manager clears the file" - the first temporary file is closed and deleted by the second start
+            f_first = writer.__enter__()
+            f_first.write(b'FIRST-ATTEMPT' * 700 if scn['is_bytes'] else 'FIRST-ATTEMPT' * 700)
+        if scn.get('exit_only'):
+            writer.__exit__(None, None, None)  # exit without enter: nothing to commit, nothing to clean
+            return 'handled:never-entered:'
         with writer as f:
             for i, chunk in enumerate(new_chunks(scn)):
                 if scn.get('raise_at') == i:
@@ -172,6 +180,11 @@ def scenarios(thorough: bool) -> List[dict]:
     out.append({'is_bytes': True, 'writes': [20000], 'dest_exists': False, 'raise_at': 0})
     out.append({'is_bytes': True, 'writes': [12000, 5], 'reenter': True})
     out.append({'is_bytes': False, 'writes': [12000, 5], 'reenter': True, 'raise_at': 1})
+    # restarted attempts and an exit without enter: judged without injected faults and under crashes only (an injected
+    # failure of the clean-up of the FIRST attempt leaves that attempt's file, which no clause speaks about)
+    out.append({'is_bytes': True, 'writes': [12000, 5], 'restart': True, 'no_faults': True})
+    out.append({'is_bytes': False, 'writes': [9000], 'restart': True, 'raise_at': 1, 'no_faults': True})
+    out.append({'is_bytes': True, 'writes': [5], 'exit_only': True, 'no_faults': True})
     return out
 
 
@@ -249,7 +262,7 @@ def enumerate_writer(run, thorough: bool) -> None:
             inside = k > opened
             run_with_action(run, scn, ('crash', k), 'atomicwriter', {'scenario': scn, 'action': ['crash', k]})
             run.case([si, 'crash', k], inside)
-            if not kind.endswith('/done'):
+            if not kind.endswith('/done') and not scn.get('no_faults'):
                 for e in ERRNOS:
                     run_with_action(run, scn, ('fault', k, e), 'atomicwriter', {'scenario': scn, 'action': ['fault', k, e]})
                     run.case([si, 'fault', k, e], inside)
